@@ -1,6 +1,7 @@
 package desync
 
 import (
+	"bytes"
 	"errors"
 	"io"
 	"io/ioutil"
@@ -84,6 +85,17 @@ func NewSparseFile(name string, idx Index, s Store, opt SparseFileOptions) (*Spa
 		}
 	}
 
+	// Read the state to initialize from before the save file is replaced below: both
+	// options may name the same file (re-warming a cache file that was lost from the
+	// state saved for it).
+	var initState []byte
+	if opt.StateInitFile != "" {
+		initState, err = os.ReadFile(opt.StateInitFile)
+		if err != nil {
+			return nil, err
+		}
+	}
+
 	// A state left in the save file was not accepted and does not describe the file
 	// as it is going to be. Replace it before touching the file: should this process
 	// die (or fail) before it saves its own state, the next start would find a file of
@@ -108,12 +120,7 @@ func NewSparseFile(name string, idx Index, s Store, opt SparseFileOptions) (*Spa
 	// This will concurrently load all chunks marked "done" in the state file and
 	// write them to the sparse file.
 	if opt.StateInitFile != "" {
-		initFile, err := os.Open(opt.StateInitFile)
-		if err != nil {
-			return nil, err
-		}
-		defer initFile.Close()
-		if err := loader.preloadChunksFromState(initFile, opt.StateInitConcurrency); err != nil {
+		if err := loader.preloadChunksFromState(bytes.NewReader(initState), opt.StateInitConcurrency); err != nil {
 			return nil, err
 		}
 	}
